@@ -34,7 +34,7 @@ func protoModel(fn *ssa.Function) Intrinsic {
 		return func(fr *frame, args []value) value { return "<proto message>" }
 	case "Descriptor", "Type", "Number", "EnumDescriptor", "ProtoReflect", "ProtoMessage":
 		return func(fr *frame, args []value) value {
-			panic(unsupported("protobuf reflection: " + fn.String()))
+			panic(unsupported("protobuf reflection: " + fn.String() + " <- " + stackOf(fr.caller)))
 		}
 	case "Reset":
 		return func(fr *frame, args []value) value {
